@@ -1,1 +1,98 @@
-From AL Require Import C16.Model C16.Spec.
+(* C16 - the proved statements, each closed by [exact] on a lemma of Proofs.v.
+   Statements are spelled out over Model.v / Spec.v only (integers are injected
+   in Qc as Q2Qc (inject_Z n); cumulative deltas are written with fold_right). *)
+From Coq Require Import List Bool ZArith QArith Qcanon.
+From AL Require Import Base.CaseLib C16.Model C16.Spec C16.Proofs.
+Import ListNotations.
+Open Scope Qc_scope.
+
+(* Main theorem: for every history (any length, any interleaving of add() and
+   next(), any rational deltas and data) the line-by-line model of Streamix
+   produces exactly the outputs of the closed-form specification. *)
+Theorem C16_run_eq_spec_run : forall keep zero ops,
+  run keep zero init ops = spec_run keep zero [] 0 false ops.
+Proof. exact run_eq_spec_run. Qed.
+Print Assumptions C16_run_eq_spec_run.
+
+Theorem C16_crun_eq_cspec_run : forall v0 ops, crun v0 ops = cspec_run v0 [] ops.
+Proof. exact crun_eq_cspec_run. Qed.
+Print Assumptions C16_crun_eq_cspec_run.
+
+(* add(): a negative delta is rejected (ValueError), anything else is enqueued *)
+Theorem C16_negative_delta_rejected : forall s d data, d < 0 -> add s d data = None.
+Proof. exact negative_delta_rejected. Qed.
+Print Assumptions C16_negative_delta_rejected.
+
+Theorem C16_nonnegative_delta_accepted : forall s d data, 0 <= d ->
+  add s d data = Some (ST (count s) (pending s ++ [(d, data)]) (playing s) (fin s)).
+Proof. exact nonnegative_delta_accepted. Qed.
+Print Assumptions C16_nonnegative_delta_accepted.
+
+Theorem C16_step_add_rejected_iff : forall keep zero s d data,
+  snd (step keep zero s (Add d data)) = ORejected <-> d < 0.
+Proof. exact step_add_rejected_iff. Qed.
+Print Assumptions C16_step_add_rejected_iff.
+
+(* an event never starts before the sample at which it was added *)
+Theorem C16_late_add_never_early : forall evs e sd,
+  In (e, sd) (combine evs (starts evs)) -> (e_added e <= fst sd)%Z.
+Proof. exact late_add_never_early. Qed.
+Print Assumptions C16_late_add_never_early.
+
+(* an event that is not added late starts at S = ceil (T - 1/2), T the sum of
+   the deltas up to and including its own; S is the sample nearest to T (ties
+   go down): T - 1/2 <= S < T + 1/2 *)
+Theorem C16_start_is_nearest_sample : forall pre e post,
+  (e_added e <= qceil (fold_right (fun x acc => (e_delta x + acc)%Qc) 0%Qc (pre ++ [e]) - half))%Z ->
+  let T := fold_right (fun x acc => e_delta x + acc) 0 (pre ++ [e]) in
+  let S := qceil (T - half) in
+  nth_error (starts (pre ++ e :: post)) (length pre) = Some (S, e_data e) /\
+  T - half <= Q2Qc (inject_Z S) /\ Q2Qc (inject_Z S) < T + half.
+Proof. exact start_is_nearest_sample. Qed.
+Print Assumptions C16_start_is_nearest_sample.
+
+(* in particular every event added before the first output (e_added = 0) *)
+Theorem C16_start_is_nearest_sample_initial : forall pre e post,
+  Forall (fun x => 0 <= e_delta x) (pre ++ [e]) -> e_added e = 0%Z ->
+  nth_error (starts (pre ++ e :: post)) (length pre)
+  = Some (qceil (fold_right (fun x acc => e_delta x + acc) 0 (pre ++ [e]) - half), e_data e).
+Proof. exact start_is_nearest_sample_initial. Qed.
+Print Assumptions C16_start_is_nearest_sample_initial.
+
+(* keep=True: the mixer never raises StopIteration *)
+Theorem C16_keep_never_stops_spec : forall ops zero evs n,
+  ~ In OStop (spec_run true zero evs n false ops).
+Proof. exact keep_never_stops_spec. Qed.
+Print Assumptions C16_keep_never_stops_spec.
+
+Theorem C16_keep_never_stops : forall zero ops, ~ In OStop (run true zero init ops).
+Proof. exact keep_never_stops. Qed.
+Print Assumptions C16_keep_never_stops.
+
+(* ControlStream: reads after "value = v" return v until the next assignment *)
+Theorem C16_control_stream_last_value_spec : forall v0 pre v k,
+  cspec v0 (pre ++ [CSet v] ++ repeat CNext k) = v.
+Proof. exact control_stream_last_value_spec. Qed.
+Print Assumptions C16_control_stream_last_value_spec.
+
+Theorem C16_control_stream_last_value : forall v0 pre v k,
+  crun v0 (pre ++ [CSet v] ++ repeat CNext k) = crun v0 pre ++ repeat v k.
+Proof. exact control_stream_last_value. Qed.
+Print Assumptions C16_control_stream_last_value.
+
+(* Non-vacuity: two overlapping events, fractional deltas (3/2, 1/2), an add()
+   after a next(), a rejected add(), the stop and an add() after the stop.
+   Starts: 0, ceil(3/2 - 1/2) = 1, max (ceil(2 - 1/2)) 1 = 2. *)
+Definition C16_example_ops : list op :=
+  [Add 0 [qc 1 1; qc 2 1; qc 3 1]; Add (qc 3 2) [qc 10 1; qc 20 1]; Next;
+   Add (qc 1 2) [qc 100 1]; Add (qc (-1) 1) [qc 5 1]; Next; Next; Next;
+   Add 0 [qc 7 1]; Next].
+Definition C16_example_out : list out :=
+  [OAdded; OAdded; OItem (qc 1 1); OAdded; ORejected; OItem (qc 12 1);
+   OItem (qc 123 1); OStop; OAdded; OStop].
+Example C16_example_model : run false 0 init C16_example_ops = C16_example_out.
+Proof. vm_compute. reflexivity. Qed.
+Print Assumptions C16_example_model.
+Example C16_example_spec : spec_run false 0 [] 0 false C16_example_ops = C16_example_out.
+Proof. vm_compute. reflexivity. Qed.
+Print Assumptions C16_example_spec.
